@@ -17,6 +17,21 @@ Theorem C08_marked_before_conflict :
     raced (run S0 il) = false.
 Proof. exact run_no_race. Qed.
 
+(* The statement for the child's real action list.  Repaired code (7d20e5f5): the start-up touches no table
+   of the launcher, so every schedule of well-scoped bodies is race free. *)
+Theorem C08_no_race_all_schedules : C08_statement.
+Proof. exact statement_holds. Qed.
+
+(* Before the repair GoRoutine's start-up read the next-scope cache of the launcher's current scope table,
+   which only the launcher may touch and which is not marked shared: the statement fails (schedule: the
+   launcher fills the cache in a Get while the new goroutine consults it).  Confirmed by the race detector. *)
+Theorem C08_startup_old_refuted : ~ statement_with child_startup_old.
+Proof. exact statement_old_refuted. Qed.
+
+Theorem C08_startup_old_schedule :
+  raced (run (fork_state_new [[0]] cap0) startup_schedule) = true /\ well_scoped sc0 startup_schedule = false.
+Proof. exact startup_races. Qed.
+
 (* hypothesis (1) is what the repaired goByteCode establishes for a closure: the whole captured chain *)
 Theorem C08_fork_marks_captured_chain :
   forall S cap t, In t (suffixes cap) -> is_shared (fork_state_new S cap) t = true.
